@@ -15,12 +15,15 @@
    the evidence pool's validateABCIEvidence calls; tied to types/evidence.go by C11's harness),
    applied to the translation of the detector's arguments.  No proofs in this file.
 
-   [fx77] = false is the code as it stands (always common.ValidatorSet); [fx77] = true is the repair
-   fixes/F77-detector-byzantine-validators-of-evidence-height.diff: in the non-lunatic branch the
-   validators are looked up in trusted.ValidatorSet, the validator set of the evidence's height
-   (CommonHeight = trusted.Height there) - the set a full node looks them up in (Pool.verify loads
-   LoadValidators(evidence.Height())).  The difference matters since repair F57 made the
-   equivocation branch of GetByzantineValidators read its commonVals argument.
+   [fx77] = true is the code as it is: repair F77 (fixes/F77-detector-byzantine-validators-of-
+   evidence-height.diff, applied to the repository): in the non-lunatic branch the validators are
+   looked up in trusted.ValidatorSet, the validator set of the evidence's height (CommonHeight =
+   trusted.Height there) - the set a full node looks them up in (Pool.verify loads
+   LoadValidators(evidence.Height())).  [fx77] = false is the code before that repair (always
+   common.ValidatorSet), kept to exhibit the defect; the difference matters since repair F57 made
+   the equivocation branch of GetByzantineValidators read its commonVals argument.
+   The correspondence run compares [hc_full true] with the implementation's evidence field by
+   field on every run (C09/EvidenceRun.v, C09/Exec.v observable 17).
 
    Translation C09 -> C11 (the two models use different vocabularies): addresses and hashes are
    integers in C09 and opaque [N] identities in C11; [an] / [hn] are arbitrary maps (injective
